@@ -90,6 +90,24 @@ def h06a_two_saves(v0, v1, v2, new_first):
             assert (keys[i] == keys[j]) == (second[i] == second[j])
 
 
+def h06a_texts(v0, v1, w):
+    """the string list keeps texts apart exactly when they differ as code-point sequences - canonically equivalent texts
+    (U+212B / U+00C5 / 'A' + U+030A, U+2126 / U+03A9) and texts of different lengths each keep their own entry"""
+    model = StubModelDL([Rec(key=5, string="old", refcount=1)])
+    model.init_table_strings(7)
+    vals = [v0, v1, w]
+    keys = [model.table_string_key(7, v) for v in vals]
+    stored = model.objects[8].entries
+    for v, k in zip(vals, keys):
+        hits = [e for e in stored if e.key == k]
+        assert len(hits) == 1
+        assert hits[0].string == v
+        assert model.table_string(7, k) == v
+    for i in range(3):
+        for j in range(i):
+            assert (keys[i] == keys[j]) == (vals[i] == vals[j])
+
+
 def _list_entry(eng, **kw):
     return Rec(**kw)
 
@@ -185,6 +203,9 @@ def h06c_rows(has0, has1, has2, has3, hdr0, hdr1, hdr2, hdr3, zr0, zr1, zr2, zr3
         assert m.storage_buffer(7, r, 2) is None
 
 
+_UNI1 = [(0x41, 0x41), (0xC5, 0xC5), (0x212B, 0x212B), (0x3A9, 0x3A9), (0x2126, 0x2126), (0xE9, 0xE9)]
+_UNI2 = [(0x41, 0x41), (0x65, 0x65), (0x30A, 0x30A), (0x301, 0x301), (0xC5, 0xC5)]
+
 HARNESSES = [
     Harness("H06a", h06a_lookup, lambda tier: dict(k0=IntDom(), k1=IntDom(), k2=IntDom(), k3=IntDom(), k4=IntDom(), n=Cases([1, 2, 3, 4] if tier == "quick" else [1, 2, 3, 4, 5])),
             bounds="1..4 (quick) / 1..5 (thorough) entries with symbolic pairwise-distinct positive keys in any order (unbounded Int)",
@@ -199,6 +220,11 @@ HARNESSES = [
             dict(v0=StrDom(1, [(97, 99)]), v1=StrDom(1, [(97, 99)]), v2=StrDom(1, [(97, 99)]), new_first=BoolDom()),
             bounds="two consecutive saves of one open document; three one-character text values a..c (every equality pattern), the value "
                    "added between the saves encoded first or last",
+            models={TSTArchives.TableDataList.ListEntry: _list_entry}),
+    Harness("H06a-texts", h06a_texts,
+            dict(v0=StrDom(1, _UNI1), v1=StrDom(1, _UNI1), w=StrDom(2, _UNI2)),
+            bounds="three texts entered in one save: two of one character over {A, U+00C5, U+212B, U+03A9, U+2126, U+00E9} and one of two "
+                   "characters over {A, e, U+030A, U+0301, U+00C5} - every pair that is equal only after Unicode normalisation is in the product",
             models={TSTArchives.TableDataList.ListEntry: _list_entry}),
     Harness("H06b", h06b_offsets,
             dict(p0=BoolDom(), p1=BoolDom(), p2=BoolDom(), p3=BoolDom(), l0=IntDom(1, 3), l1=IntDom(1, 3), l2=IntDom(1, 3), l3=IntDom(1, 3)),
